@@ -40,4 +40,22 @@ def build {α : Type} (defs : List (String × α)) : List (String × α) :=
 /-- what a listing or the dump shows of a table: the keys in iteration order -/
 def keysOf {α : Type} (t : List (String × α)) : List String := t.map Prod.fst
 
+/-! ### suggestions ("Did you mean …?")
+
+`Justfile::find_suggestion` (src/justfile.rs): the candidates are iterated in the order of their tables, those at edit
+distance below 3 are kept, and `min_by_key` returns the FIRST of the nearest ones.  The edit distance (crate
+`edit-distance`) is a parameter. -/
+
+def pickNearest (dist : String → Nat) : Option String → List String → Option String
+  | best, [] => best
+  | none, c :: cs => pickNearest dist (some c) cs
+  | some b, c :: cs => pickNearest dist (if dist c < dist b then some c else some b) cs
+
+def suggest (dist : String → Nat) (cands : List String) : Option String :=
+  pickNearest dist none (cands.filter (fun c => dist c < 3))
+
+/-- `suggest_recipe`: the recipes' names, then the aliases' names, each in table order -/
+def suggestRecipe {α β : Type} (dist : String → Nat) (recipes : List (String × α)) (aliases : List (String × β)) : Option String :=
+  suggest dist (keysOf (build recipes) ++ keysOf (build aliases))
+
 end Just.Determinism
